@@ -45,10 +45,14 @@ pub fn check_likely(r: &mut Recorder, c: &Value) {
     let res = guard(|| {
         let mx = likelysubtags::maximize(t.0, t.1, t.2);
         let mn = likelysubtags::minimize(t.0, t.1, t.2);
-        (mx, mn)
+        (mx, mn, likelysubtags::maximize(t.0, t.1, t.2), likelysubtags::minimize(t.0, t.1, t.2))
     });
     let (mx, mn) = match res {
-        Ok(x) => x,
+        Ok((mx, mn, mx2, mn2)) => {
+            if mx2 != mx { r.dis(&["C06"], "maximize-second-call-differs", json!({"triple": name})); }
+            if mn2 != mn { r.dis(&["C08"], "minimize-second-call-differs", json!({"triple": name})); }
+            (mx, mn)
+        }
         Err(at) => {
             r.dis(&["C01"], &format!("panic@{}", short_at(&at)), json!({"triple": name, "panic": at}));
             return;
